@@ -69,7 +69,7 @@ def compile_digest(cli, text, root):
     args = [cli, "-f", p]
     for l in LANGS:
         args += [FLAG[l], os.path.join(root, l)]
-    r = run(args, timeout=60)
+    r = run(args, timeout=240)
     if r.returncode != 0:
         return r.returncode, "rc%d" % r.returncode
     parts = []
